@@ -5,6 +5,7 @@
    dialect is modelled (esc_fish) but excluded from the claim. Raw (r) and file (f) placeholders are
    unquoted by documentation: they appear as OText (spliced text), never as OWords. *)
 From Fzf Require Import Prelude ShellSpec PlusSpec PlaceholderModel PlaceholderProofs PlusListModel PlusListProofs.
+From Fzf Require Import ExecSpec ExecModel ExecProofs.
 Open Scope Z_scope.
 
 (* QuoteEntry: ANY list of byte strings (quotes, blanks, newlines, $, `, \, globs ...), each quoted and joined by
@@ -150,6 +151,54 @@ Theorem quote_roundtrip_fish : forall ws : list str,
 Proof. exact quote_roundtrip_fish_proof. Qed.
 Print Assumptions quote_roundtrip_fish.
 
+(* ---- which shell reads the expansion ($SHELL, --with-shell) ---- *)
+
+(* NewExecutor, for EVERY value of $SHELL and of --with-shell: it never fails, the shell it starts is the one the
+   documentation names (the first word of --with-shell, else $SHELL, else sh), and the escaper it carries is the one of
+   THAT shell (fish's exactly when its file name is fish) - never the one of a $SHELL that --with-shell overrides. *)
+Theorem executor_dialect_follows_running_shell : forall env_shell with_shell,
+  exists x, new_executor env_shell with_shell = Ok x /\
+            x_shell x = running_shell env_shell with_shell /\
+            x_fish x = runs_fish env_shell with_shell.
+Proof. exact new_executor_dialect_proof. Qed.
+Print Assumptions executor_dialect_follows_running_shell.
+
+(* hence QuoteEntry of that executor, for any strings, is read back by the shell that runs the command as exactly those
+   strings (sh_words for a POSIX shell; fish_words, the unvalidated reading of the fish manual, for fish) *)
+Theorem executor_quote_roundtrip : forall env_shell with_shell (ws : list str),
+  exists x, new_executor env_shell with_shell = Ok x /\
+            shell_reads env_shell with_shell (join_sp (map (quote_entry (x_fish x)) ws)) = Some ws.
+Proof. exact executor_quote_roundtrip_proof. Qed.
+Print Assumptions executor_quote_roundtrip.
+
+(* ---- the re-launch script of fzf --tmux: the loop of runProxy over os.Environ() ---- *)
+
+(* every entry NAME=value whose name a shell can hold (TMUX_PANE excepted, by design) has a line in the script that the
+   shell reads as `export` followed by exactly the ORIGINAL ENTRY: the value arrives whole, whatever it contains
+   (further '=' signs, quotes, $, backticks, newlines, nothing at all) *)
+Theorem relaunch_env_roundtrip : forall environ lines nb,
+  proxy_exports environ = Ok (lines, nb) ->
+  forall e, In e environ -> exportable e = true ->
+  exists l, In l lines /\ export_effect l = Some [e].
+Proof. exact relaunch_env_roundtrip_proof. Qed.
+Print Assumptions relaunch_env_roundtrip.
+
+(* an exported bash function BASH_FUNC_name%%=body is re-defined as `name body`, re-exported, and the script goes to bash *)
+Theorem relaunch_bash_function : forall environ lines nb name body,
+  proxy_exports environ = Ok (lines, nb) ->
+  (forall c, In c name -> c <> 61) ->
+  In (m_bash_func ++ name ++ m_pct2 ++ 61 :: body) environ ->
+  In (name ++ body) lines /\ In (m_export_f ++ name) lines /\ nb = true.
+Proof. exact relaunch_bash_function_proof. Qed.
+Print Assumptions relaunch_bash_function.
+
+(* the loop does not fail on an environment made of NAME=value entries (on an entry WITHOUT '=' whose text is an
+   identifier the Go code indexes pair[1] out of range: see c12_relaunch_entry_without_eq below) *)
+Theorem relaunch_total : forall environ,
+  (forall e, In e environ -> entry_value e <> None) -> exists r, proxy_exports environ = Ok r.
+Proof. exact relaunch_total_proof. Qed.
+Print Assumptions relaunch_total.
+
 (* ---- non-vacuity ---- *)
 
 (* template  echo {} x{+}y {q} {n} \{}  ; current item  it's $(id) `x`;rm  ; selected  a b / c'd / newline ; query  "q" \  *)
@@ -204,4 +253,34 @@ Example c12_files_nonvacuous :
         [[105;116;39;115;32;36;40;105;100;41;32;96;120;96;59;114;109;10];
          [49;10;50;10;51;10];
          [97;32;98;10;99;39;100;10;10;10]]).
+Proof. vm_compute. reflexivity. Qed.
+
+(* $SHELL = /usr/bin/fish with --with-shell "bash -c": bash runs the command, POSIX quoting; $SHELL = /bin/sh with
+   --with-shell "/usr/local/bin/fish -c": fish; no --with-shell: $SHELL decides; nothing set: sh *)
+Example c12_dialect_nonvacuous :
+  runs_fish [47;117;115;114;47;98;105;110;47;102;105;115;104] [98;97;115;104;32;45;99] = false /\
+  running_shell [47;117;115;114;47;98;105;110;47;102;105;115;104] [98;97;115;104;32;45;99] = [98;97;115;104] /\
+  runs_fish [47;98;105;110;47;115;104] [47;117;115;114;47;108;111;99;97;108;47;98;105;110;47;102;105;115;104;32;45;99] = true /\
+  runs_fish [47;117;115;114;47;98;105;110;47;102;105;115;104] [] = true /\
+  running_shell [] [32;32] = s_sh /\
+  executor_quote [47;117;115;114;47;98;105;110;47;102;105;115;104] [115;104;32;45;99] [97;92;98;39;99] =
+    Ok [39;97;92;98;39;92;39;39;99;39].
+Proof. vm_compute. repeat split. Qed.
+
+(* environment  KV=key=value  T=trailing=  E=  Q=it's  TMUX_PANE=%0  1x=y : the first four are exported whole, the value of KV
+   keeps its second '=', TMUX_PANE and the name a shell cannot hold are left out *)
+Example c12_relaunch_nonvacuous :
+  exists lines,
+    proxy_exports [[75;86;61;107;101;121;61;118;97;108;117;101]; [84;61;116;114;97;105;108;105;110;103;61]; [69;61];
+                   [81;61;105;116;39;115]; [84;77;85;88;95;80;65;78;69;61;37;48]; [49;120;61;121]] = Ok (lines, false) /\
+    exportable [75;86;61;107;101;121;61;118;97;108;117;101] = true /\
+    map export_effect lines =
+      [None; None; None;
+       Some [[75;86;61;107;101;121;61;118;97;108;117;101]]; Some [[84;61;116;114;97;105;108;105;110;103;61]];
+       Some [[69;61]]; Some [[81;61;105;116;39;115]]].
+Proof. eexists. vm_compute. repeat split. Qed.
+
+(* an environment entry without '=' (possible through execve, not through a shell): the faithful model fails where the Go
+   code evaluates pair[1] - observed on the binary as `panic: index out of range [1] with length 1` in runProxy *)
+Example c12_relaunch_entry_without_eq : proxy_exports [[70;79;79]] = Err OutOfRange.
 Proof. vm_compute. reflexivity. Qed.
